@@ -799,3 +799,17 @@ Proof.
   rewrite (links_perm_blocks d bs bs' es Hnd HPb).
   eapply perm_trans; [apply links_perm_edges; exact HPe|exact HPl].
 Qed.
+
+(** * Intersection of replication requirements *)
+Lemma intersect_comm : forall a b, intersect a b = intersect b a.
+Proof. intros [| n | |] [| m | |]; cbn; try reflexivity. now rewrite Nat.min_comm. Qed.
+Lemma intersect_assoc : forall a b c, intersect a (intersect b c) = intersect (intersect a b) c.
+Proof. intros [| n | |] [| m | |] [| k | |]; cbn; try reflexivity. now rewrite Nat.min_assoc. Qed.
+Lemma intersect_idem : forall a, intersect a a = a.
+Proof. intros [| n | |]; cbn; try reflexivity. now rewrite Nat.min_id. Qed.
+Lemma intersect_one : forall a, intersect ROne a = ROne /\ intersect a ROne = ROne.
+Proof. intros [| n | |]; cbn; auto. Qed.
+Lemma intersect_unlimited : forall a, intersect RUnlimited a = a /\ intersect a RUnlimited = a.
+Proof. intros [| n | |]; cbn; auto. Qed.
+Lemma intersect_host : forall a, a <> ROne -> intersect RHost a = RHost /\ intersect a RHost = RHost.
+Proof. intros [| n | |] H; cbn; auto. contradiction. Qed.
